@@ -39,6 +39,54 @@ structure Route where
   handler : String
   deriving DecidableEq, Repr
 
+/-! ### the decision logic of `basicAuthHandler`, as extracted -/
+
+/-- what the condition inside `for u, p := range credentials` compares -/
+inductive AuthAtom where
+  | userEq    -- u == username
+  | passEq    -- p == password
+  deriving DecidableEq, Repr
+
+inductive AuthCond where
+  | atom (a : AuthAtom)
+  | and (a b : AuthCond)
+  | or (a b : AuthCond)
+  deriving DecidableEq, Repr
+
+/-- the shape of `basicAuthHandler` (extracted into `Gen.authLogic`) -/
+structure AuthLogic where
+  nilPassThrough : Bool    -- `if credentials == nil { return h }`
+  okChecked : Bool         -- `if !ok { 401; return }` after `r.BasicAuth()`
+  cond : AuthCond          -- the loop sets `authorized` when this holds for some configured pair
+  noHeaderStatus : Nat
+  mismatchStatus : Nat
+  deriving DecidableEq, Repr
+
+/-- the Authorization header of a request: absent, not a well-formed Basic header, or Basic user:password -/
+inductive AuthHeader where
+  | none
+  | malformed
+  | basic (user pass : String)
+  deriving DecidableEq, Repr
+
+def AuthCond.eval (c : AuthCond) (u p user pass : String) : Bool :=
+  match c with
+  | .atom .userEq => u == user
+  | .atom .passEq => p == pass
+  | .and a b => a.eval u p user pass && b.eval u p user pass
+  | .or a b => a.eval u p user pass || b.eval u p user pass
+
+/-- does `basicAuthHandler`, of the given shape, let the request through to the wrapped handler?
+    (credentials configured; `r.BasicAuth()` yields "", "", false without a well-formed header) -/
+def authOk (l : AuthLogic) (creds : List (String × String)) (h : AuthHeader) : Bool :=
+  let up : Option (String × String) :=
+    match h with
+    | .basic u p => some (u, p)
+    | _ => if l.okChecked then Option.none else some ("", "")
+  match up with
+  | Option.none => false
+  | some (user, pass) => creds.any (fun c => l.cond.eval c.1 c.2 user pass)
+
 /-! ### requests -/
 
 /-- a path segment: the token naming its text, and what `cid.Decode` / `peer.Decode` make of it -/
@@ -51,6 +99,14 @@ structure Seg where
 inductive Auth where
   | none | malformed | wrong | right
   deriving DecidableEq, Repr
+
+/-- how the handler of the given shape classifies a header against the configured pairs -/
+def authClass (l : AuthLogic) (creds : List (String × String)) (h : AuthHeader) : Auth :=
+  if authOk l creds h then .right
+  else match h with
+    | .none => .none
+    | .malformed => .malformed
+    | .basic _ _ => .wrong
 
 inductive Val where
   | nat (n : Nat)
